@@ -127,6 +127,9 @@ var bigLiteralRE = regexp.MustCompile(`[0-9]{7,}`)
 // templateFeature is the <class> part of template failures: the (at most two, alphabetically first)
 // functions called, else the kind of template.
 func templateFeature(tpl string) string {
+	if strings.Contains(tpl, "d(d(d(") {
+		return "tpl:repeated-application" // a function applied over and over to its own result (doubling, sharing)
+	}
 	if strings.Contains(tpl, "=>") {
 		return "tpl:anonymous-function"
 	}
